@@ -77,7 +77,7 @@ def layouts_of(prs):
 
 def ph_xml(i: int, p: dict) -> str:
     attrs = ' type="%s"' % p["type"]
-    if p["idx"] != 0:
+    if p["idx"] != 0 or p.get("nm") == "idx0":
         attrs += ' idx="%d"' % p["idx"]
     if p["orient"] != "horz":
         attrs += ' orient="%s"' % p["orient"]
